@@ -409,6 +409,10 @@ func monitorPolicy(k *PolicyCase) []c.Hit {
 			opened[ev.Seq], seg[ev.Seq], ended[ev.Seq] = true, 0, false
 		}
 		if out == "retry" {
+			if !ev.New && opened[ev.Seq] && ended[ev.Seq] {
+				add("policy-retry-after-end", "once a call ended (non-retryable status / budget used up) its later responses are not retried",
+					fmt.Sprintf("event #%d: status %d of sequence %d answered retry", i, ev.Status, ev.Seq))
+			}
 			if !retryable {
 				add("policy-retry-outside-ranges", "a status outside the configured ranges is never retried",
 					fmt.Sprintf("event #%d: status %d of sequence %d answered retry", i, ev.Status, ev.Seq))
